@@ -17,5 +17,15 @@ let handle = function
       let ns = List.map bytes_of_hex (String.split_on_char ',' names) in
       let b = int_of_string base in
       show_o (fun c -> hex_of_bytes (List.filteri (fun i _ -> i >= b) c)) (c19_build (n_of_int b) ns)
+  | ["bimrev"; base; names] ->
+      let ns = List.map bytes_of_hex (String.split_on_char ',' names) in
+      let b = int_of_string base in
+      show_o (fun c -> hex_of_bytes (List.filteri (fun i _ -> i >= b) c)) (c19_build_rev (n_of_int b) ns)
+  | ["nquestion"; c; s] ->
+      show_o (fun (((w, t), cl), e) -> Printf.sprintf "%s %d %d %d" (hex_of_bytes w) (int_of_n t) (int_of_n cl) (int_of_n e)) (c19_question (bytes_of_hex c) (nat_n s))
+  | ["nrecord"; c; s] ->
+      show_o (fun (((((w, t), cl), ttl), d), e) -> Printf.sprintf "%s %d %d %d %d %d" (hex_of_bytes w) (int_of_n t) (int_of_n cl) (int_of_n ttl) (int_of_n d) (int_of_n e)) (c19_record (bytes_of_hex c) (nat_n s))
+  | ["edns"; b] ->
+      show_o (fun (e, rest) -> Printf.sprintf "%d %d %d %d %s %d" (int_of_n e.e_udp) (int_of_n e.e_ext) (int_of_n e.e_ver) (int_of_n e.e_flags) (hex_of_bytes e.e_data) (List.length rest)) (c19_edns (bytes_of_hex b))
   | _ -> failwith "bad case line"
 let () = main handle
